@@ -23,6 +23,7 @@ FIXED = [
  ("C08", "cached question", "question cache not invalidated by set_raw_name/delete on the question"),
  ("C08", "clear the EDNS summary", "deleting the OPT record left offset_edns/edns_count/ext_* (and flags()/dnssec()) describing the deleted record"),
  ("C08", "labels the validator rejects", "set_raw_name accepted labels with dot/backslash/control bytes: packet no longer parses"),
+ ("C08", "dragged its TTL and data along", "insert_rr(Section::Question) with a full record (insert_rr_from_string / add_to_question) inserted TTL, rdlength and rdata into the question section: packet rejected by the parser"),
  ("C10", "before checking the section count", "insert_rr spliced the record in before the count check: a refused second question left extra bytes (packet no longer parses)"),
  ("C10", "size check underflowed", "insert_rr: 8192 - len underflowed for packets > 8192 bytes: panic (debug) / size limit bypass (release)"),
  ("C12", "could never clear a flag", "set_flags cleared opcode and rcode and never cleared a flag bit (inverted masks)"),
